@@ -409,6 +409,28 @@ pub fn child_main(args: &[String]) -> i32 {
         }
     });
 
+    // (4c) absurd max_random_delay values (legal in a config file): constructing and re-arming must not panic
+    for delay in [u64::MAX, 1u64 << 63, (1u64 << 63) + 5, 1_000_000_000_000_000_000, 10_000_000_000] {
+        for k in 0..24u64 {
+            rep.case_enumerated(true);
+            rep.count("huge_delay_constructions", 1);
+            let ts = days_from_civil(2024, 5, 17) * 86400 + 37_000 + k as i64;
+            let LocalResult::Single(now) = Local.timestamp_opt(ts, 0) else { continue };
+            hooks::set_clock(Some(now));
+            let r = trap::catch(|| TimeTrigger::new(TimeTrigger::verif_config(interval(UNITS[(k % 7) as usize], 1), k % 2 == 0, delay)).verif_next_roll_time());
+            hooks::set_clock(None);
+            let d = json!({"zone": zone, "max_random_delay": delay, "unit": format!("{:?}", UNITS[(k % 7) as usize]), "now": now.to_rfc3339()});
+            match r {
+                Err(p) => rep.violation(&format!("C16:panic:TimeTrigger::new:huge-delay:{}", panic_class(&p.message)), json!({"case": d, "panic": p.message})),
+                Ok(t) => {
+                    if t <= now {
+                        rep.violation("C16:huge-delay:schedule-not-in-the-future", json!({"case": d, "scheduled": t.to_rfc3339()}));
+                    }
+                }
+            }
+        }
+    }
+
     // (5) histories on the driven clock
     run_cases(&mut rep, "history", if thorough { 2500 } else { 250 }, |rep, rng, idx| history(rep, rng, zone_ref, table_ref, idx));
 
